@@ -77,3 +77,61 @@ def chain(case, var):
 
 def step_has_ftype(step, names):
     return any(ir.has_op(e, names) for e in ir.step_exprs(step))
+
+
+COMPUTING = ("mutate", "summarize")
+
+
+def side_has_computed(case, var):
+    """Does the lineage of `var` contain a verb that computes columns (mutate/summarize)?"""
+    return any(s["verb"] in COMPUTING for s in lineage(case, var))
+
+
+def outer_join_computed(case):
+    """Shape of K01: a left/full join whose null-padded side carries computed columns."""
+    for s in steps_of(case):
+        if s["verb"] == "join" and s.get("how") in ("left", "full") and not s.get("cross"):
+            if side_has_computed(case, s["right"]):
+                return True
+            if s["how"] == "full" and side_has_computed(case, s["in"]):
+                return True
+    return False
+
+
+@matcher("outer_join_computed_side")
+def _m_k01(case, fj):
+    return outer_join_computed(case)
+
+
+def ungrouped_summarize_then_deselect(case):
+    """Shape of K03: an ungrouped summarize whose columns may all be deselected later."""
+    for s in steps_of(case):
+        if s["verb"] != "summarize":
+            continue
+        grouped = False
+        for p in chain(case, s["in"]):
+            if p["verb"] == "group_by":
+                grouped = True
+            elif p["verb"] in ("ungroup", "summarize"):
+                grouped = False
+            elif p["verb"] == "collect" and not p.get("keep", True):
+                grouped = False
+        if grouped:
+            continue
+        names = {n for n, _ in s["items"]}
+        later = False
+        seen = False
+        for p in steps_of(case):
+            if p is s:
+                seen = True
+                continue
+            if seen and p["verb"] in ("select", "drop", "mutate", "summarize"):
+                later = True
+        if later:
+            return True
+    return False
+
+
+@matcher("ungrouped_summarize_deselected")
+def _m_k03(case, fj):
+    return ungrouped_summarize_then_deselect(case)
